@@ -284,6 +284,27 @@ int deep(int a, int b, int c, int d) { write(a + b + c + d); write(' '); return 
 empty tight(int n) { byte buf[n]; buf[n - 1] = 'X'; write(12345); write(' '); write(buf[n - 1]); writeln(); }
 empty @is_you(int n) { int keep = deep(n, deep(1, 2, 3, 4), 5, 6); tight(n); tight(n - 1); write(keep); }
 '''
+    # the guards of several dynamic arrays in one function are computed from one bookkeeping of frame depths: deep points
+    # before, between and after the declarations, in one block and in nested blocks
+    yield 'exact-fit/two dynamic arrays around deep temporaries, after a deep call', UTIL + '''
+int g = 0; int seen = 0; int blen = 0;
+int sum4(int a, int b, int c, int d) { return a + b + c + d; }
+empty @is_you(int n) { int t = sum4(1, 2, 3, 4); if (n > 0) { int a[n]; a[n - 1] = 77; g = (n + 1) * ((n + 2) * ((n + 3) * (n + 4))); int b[3]; seen = a[n - 1]; blen = b.length; }
+    writeln(seen); writeln(blen); writeln(t); }
+'''
+    yield 'exact-fit/dynamic array after a block that went deeper', UTIL + '''
+empty @is_you(int n) { { int[] t = [n, n, n, n, n, n]; writeln(t[5]); } int v[n]; v[0] = n + 1; v[n - 1] = n; writeln(v[0] + v[n - 1]); }
+'''
+    yield 'exact-fit/three dynamic arrays with twelve temporaries between', UTIL + '''
+int g = 1;
+empty @is_you(int n) { int a[n]; for (int i = 0; i < n; i += 1) { a[i] = 7; }
+    int t = g + (g + (g + (g + (g + (g + (g + (g + (g + (g + (g + (g + g)))))))))));
+    write(a[n - 1]); write(' '); writeln(t); int b[1]; int c[1]; b[0] = t; c[0] = t; write(b[0] + c[0]); }
+'''
+    yield 'exact-fit/dynamic arrays in sibling blocks of different depth', UTIL + '''
+int sum4(int a, int b, int c, int d) { return a + b + c + d; }
+empty @is_you(int n) { int keep = 5; { int a[n]; a[n - 1] = sum4(n, 1, 2, 3); keep += a[n - 1]; } { byte b[n]; b[0] = 'b'; { int c[2]; c[1] = keep; keep = c[1] + b[0]; } } writeln(keep); }
+'''
     yield 'exact-fit/bool literal with an all-false group where the deepest frames were', UTIL + '''
 int dig(int d) { if (d == 0) { int a = -1; int b = -1; return a + b; } return dig(d - 1); }
 empty @is_you(int n) { int r = dig(n); writeln(r); bool t = n > 0; bool[] v = [t, false, false, false, false, false, false, false, false, false, false, false];
